@@ -417,7 +417,7 @@ pub fn work(ctx: &Ctx, rep: &mut Report) {
         Guarded::HarnessPanic(m, l) => rep.inconclusive(format!("harness panic at {}: {}", l, m)),
     }
     // 4. streams through the differential monitor
-    crate::mon::diffmon::work(ctx, rep, (20_000, 400_000), (0, 0), false);
+    crate::mon::diffmon::work(ctx, rep, (60_000, 600_000), (0, 0), false);
     // long scalar-soup streams (G6)
     let n = ctx.scale(800, 20_000);
     for u in ctx.units(n) {
